@@ -70,7 +70,7 @@ pub fn gen_c11_crash(case_seed: u64, case: u64, tier: Tier) -> Plan {
 
 /// C10's domain: one write per key per transaction (no two versions tie on the commit
 /// timestamp).
-fn one_write_per_key(steps: &mut Vec<Step>) {
+pub fn one_write_per_key(steps: &mut Vec<Step>) {
 	let mut seen: BTreeMap<u8, Vec<u16>> = BTreeMap::new();
 	steps.retain(|s| match s {
 		Step::Begin { a, .. } | Step::Commit { a, .. } | Step::Rollback { a } | Step::DropTxn { a } => {
